@@ -356,3 +356,19 @@ func (w *Walker) Scores() {
 		w.ScoreOp(i)
 	}
 }
+
+// ParseLast parses the string produced by the last Vector() call with the concrete ParseVector of the version
+// and keeps the result alive; it returns false when the parser rejects it.
+func (w *Walker) ParseLast() bool {
+	switch w.ver {
+	case spec.V20:
+		sink20, sinkErr = gocvss20.ParseVector(sinkStr)
+	case spec.V30:
+		sink30, sinkErr = gocvss30.ParseVector(sinkStr)
+	case spec.V31:
+		sink31, sinkErr = gocvss31.ParseVector(sinkStr)
+	default:
+		sink40, sinkErr = gocvss40.ParseVector(sinkStr)
+	}
+	return sinkErr == nil
+}
